@@ -7,10 +7,14 @@ EXTENDS Naturals, Sequences
 \* thread - is interference whatever the timing.  (2) An I/O buffer in static storage, or a process-wide variable
 \* other than the logging settings that the library writes, is interference exactly when it is accessed without
 \* synchronisation; `raced` is the happens-before race detector's verdict on library-owned memory for the same
-\* scenarios run by several threads at once.
+\* scenarios run by several threads at once.  (3) The file mode creation mask is process-wide and umask() can only swap it:
+\* a library call that changes it - even if it puts the old value back - changes, for that time, the mode of every file
+\* another thread creates, and two such calls overlapping can leave it changed for good; umaskCalls counts the calls
+\* made from the library's code.
 Unexpected(globalsWritten, allowed) == \E i \in 1..Len(globalsWritten) : \A j \in 1..Len(allowed) : globalsWritten[i] # allowed[j]
-Footprint(staticIoBufs, globalsWritten, allowed, foreignCloses, raced) ==
+Footprint(staticIoBufs, globalsWritten, allowed, foreignCloses, raced, umaskCalls) ==
     /\ foreignCloses = 0
+    /\ umaskCalls = 0
     /\ raced => (staticIoBufs = 0 /\ ~Unexpected(globalsWritten, allowed))
 \* every scenario run concurrently with others produced exactly what it produces alone
 SameAsSerial(serialDigest, concurrentDigest) == serialDigest = concurrentDigest
